@@ -155,8 +155,9 @@ func (q Req) Build() (*http.Request, context.CancelFunc) {
 			r.Body = fr
 		}
 		r.ContentLength = -1
-	} else if q.Chunked && q.Body != "" {
-		// hide the length from net/http, as a chunked upload does
+	} else if q.Chunked {
+		// hide the length from net/http, as a chunked upload does (also for a body that turns out empty:
+		// a chunked request consisting of the terminating chunk only)
 		r.Body = io.NopCloser(struct{ io.Reader }{strings.NewReader(q.Body)})
 		r.ContentLength = -1
 		r.TransferEncoding = []string{"chunked"}
